@@ -9,7 +9,7 @@ LEAN_MODULES = ['Glom.Props.C12']
 FACT_FILES = ['TFacts', 'ExcFacts', 'RegFacts', 'MutFacts', 'c11']
 READY = True
 MANIFEST = dict(
-    text="Lean 4 theorems about an executable model of Delete.__init__/glomit/_del_one (driven by the branch table and caught exception classes EXTRACTED from _del_one's AST), _apply_for_each and the `delete` registry op on a heap with object identity: for every heap, target, wildcard-free path of any length in every addressing style and ignore_missing in {False, True} the model's outcome is Python's `del` on the addressed key / index / attribute (same object returned, later list items shift, every other cell untouched), a missing final element is a PathDeleteError and a missing parent a PathAccessError with the heap unchanged, both silently ignored under ignore_missing, any other deletion fault leaves the heap unchanged; wildcard paths delete at every match in order — an entry that occurs twice among the matches is processed twice (facts: one evaluation of the rest of the path per entry) —; delete after assign through the same path is the delete of the original element where there was one and restores the original heap exactly where the assignment created it [c12_delete_after_assign_partial]; the `delete` handler table is a parameter [c12_facts_wf_ureg]; the path a Delete keeps is the path as it is read (S.a / Path(S,'a') name the scope variable a) [c12_facts_s_first, c12_refines_spec]. `c12_missing_final` hinges on a facts obligation (`[` catches KeyError and IndexError, `.` AttributeError, plain segments Exception) discharged by `decide` on the tables regenerated from /repo; model tied to the code by differential execution (full heap snapshot, exception class chain).",
+    text="Lean 4 theorems about an executable model of Delete.__init__/glomit/_del_one (driven by the branch table and caught exception classes EXTRACTED from _del_one's AST), _apply_for_each and the `delete` registry op on a heap with object identity: for every heap, target, wildcard-free path of any length in every addressing style and ignore_missing in {False, True} the model's outcome is Python's `del` on the addressed key / index / attribute (same object returned, later list items shift, every other cell untouched), a missing final element is a PathDeleteError and a missing parent a PathAccessError with the heap unchanged, both silently ignored under ignore_missing, any other deletion fault leaves the heap unchanged; the outcome of a fault is exact per kind of step: a plain segment's handler failure is a PathDeleteError and silent under ignore_missing, T[..] / T.attr raising anything but a lookup error is raised also under ignore_missing [c12_fault_unchanged, delExactOK in c12_facts_wf]; a wildcard deletion that fails half-way leaves exactly the heap of the deletions before it [c12_star, c12_star_model_checks]; the read-back step of a chain sees exactly what Python's del leaves, an S-rooted Delete in a chain cannot unbind variables of outer frames [c12_read_checks]; wildcard paths delete at every match in order — an entry that occurs twice among the matches is processed twice (facts: one evaluation of the rest of the path per entry) —; delete after assign through the same path is the delete of the original element where there was one and restores the original heap exactly where the assignment created it [c12_delete_after_assign_partial]; the `delete` handler table is a parameter [c12_facts_wf_ureg]; the path a Delete keeps is the path as it is read (S.a / Path(S,'a') name the scope variable a) [c12_facts_s_first, c12_refines_spec]. `c12_missing_final` hinges on a facts obligation (`[` catches KeyError and IndexError, `.` AttributeError, plain segments Exception) discharged by `decide` on the tables regenerated from /repo; model tied to the code by differential execution (full heap snapshot, exception class chain).",
     note="trusted: Lean kernel + {propext, Classical.choice, Quot.sound}; extractor (extract/facts/c11.py); harness/driver; CPython's delitem/delattr on dict/list/tuple/set/plain instances and the fault classes of harness/props/mutobjs.py as modelled in Glom/Model/C11.lean (validated by the correspondence only); default registry (C13 covers registration); `**` paths outside the model.",
     technique='Lean 4 refinement proof (Delete model = plain del on a heap, frame lemma) + facts obligation by decide over the extracted except-clauses + differential correspondence',
     ref='DESIGN.md §3 C12')
@@ -19,7 +19,7 @@ RULE = ('type-directed: targets as for C11 (dict/OrderedDict/dict subclass/list/
         '(success), an absent key / out-of-range index / absent attribute (missing final), or stops existing '
         'earlier (missing parent); spelled as dotted text, Path(...), T[..]/T.attr, mixtures, S-rooted (first step as '
         'S[name], S.name or Path(S, name): the scope variable), with 0-2 `*` wildcards; ignore_missing in {False, True}; keys / attributes also named like op characters '
-        'and wildcards (x, X, P, *, **); 12% of the cases apply the SAME Delete object first to 1-2 other '
+        'and wildcards (x, X, P, *, **); chain mode (Delete, peek, read-back of the path or a prefix: 25% of the T-rooted, 70% of the S-rooted cases); 12% of the cases apply the SAME Delete object first to 1-2 other '
         'targets (histories); 8% register 1-3 user classes on a private Glommer with explicit get / assign / delete handlers (every handler '
         'kind, False, a raising handler); 6% are regular nested targets under one `*` per level, two thirds of them with the SAME leaf / '
         'sub-container matched more than once; a one-edit mutation stream plants a bad segment '
@@ -28,9 +28,27 @@ RULE = ('type-directed: targets as for C11 (dict/OrderedDict/dict subclass/list/
 TRUSTED = ['deletion primitives of CPython and the fault classes of harness/props/mutobjs.py as modelled in '
            'lean/Glom/Model/C11.lean (per-class flags computed by introspection)',
            'segments stay in the int() subset [+-]?[0-9]+']
-ASSUMPTIONS = ['default registry (no user registrations): C13 covers registration', 'PATH_STAR = True',
-               '`**` paths are skipped (enumeration order of `**` is C14)']
+ASSUMPTIONS = ['registry lookup = first registered class of the MRO (C13 covers the registry); the prescription uses '
+               'kind-fixed tables for the builtin types (c12_facts_natural)', 'PATH_STAR = True',
+               '`**` paths: generated, checked for same-object only (enumeration order of `**` is C14)',
+               'READING (F12-1): "missing" = the deletion raised KeyError / IndexError / AttributeError (Python cannot tell an '
+               'absent element from an undeletable one: a read-only property, a class attribute); Counter-like __delitem__ '
+               'semantics are Python\'s',
+               'READING (F12-2): through a plain segment the failure of the registered delete handler — any Exception — means '
+               '"cannot be deleted": PathDeleteError, silently ignored under ignore_missing; through T[..] / T.attr only the '
+               'lookup errors are "missing", any other exception (RuntimeError, TypeError) is raised as it is, also under '
+               'ignore_missing; a type without handler and a path the constructor rejects always raise [swallowed, delExactOK]',
+               'READING (F12-3): Delete(S[name]) unbinds only in the frame the Delete itself runs under: as the whole spec that '
+               'is the root frame (nothing can look into it afterwards); as a step of a chain the variables it sees (given with '
+               'scope=, or bound by earlier steps) live in OUTER frames: PathDeleteError(KeyError), nothing under ignore_missing, '
+               'the variable stays readable — the statement is about targets [scope_outer, c12_read_checks]',
+               'READING (F12-4): side effects of the target\'s own reads are the target\'s (as C11); not generated',
+               'int(): as C11 (intSafe)']
 
+
+# Chain mode: the Delete is a step of a chain whose later step reads the path back (the only way to see
+# what an S-rooted Delete did to the scope).  False: not generated.
+CHAIN_MODE = True
 
 # User types: classes registered on a private Glommer with explicit get / assign / delete handlers
 # (every handler kind, False, a raising handler of the user's own).  False: not generated.
@@ -71,15 +89,22 @@ def one_case(rng, tier, classes, cflags, force=None):
     if rng.random() < force.get('mut_p', 0.2):
         steps = M.mutate_dest(rng, steps)
     style = force.get('style') or M.choose_style(rng, steps, sroot)
-    if style == 'text' and not all(k == 'star' or (k != 'raw' and M.text_ok(k, key)) for k, key in steps):
+    if style == 'text' and not all(k in ('star', 'starstar') or (k != 'raw' and M.text_ok(k, key)) for k, key in steps):
         style = 't'
     sp = M.spell(rng, steps, style)
     if sroot:
         sp = M.s_first(rng, sp)        # S.name / Path(S, name) / S[name]: the scope variable `name`
     if scope is None:
         cflags = [f for f in cflags if f[0] != 'Scope']
+    # chain mode: `(Delete(path), <peek>, readPath)` — a later step reads the path (or a prefix) back; an
+    # S-rooted Delete in a chain runs under a frame of its own: the variables it sees live in OUTER maps
+    # of the scope (`scope_outer`), `del` on the ChainMap reaches the first map only
+    rb = M.gen_readback(rng, steps, style, force.get('chain_p', 0.7 if sroot else 0.25), sroot) \
+        if CHAIN_MODE and not ureg else None
+    if rb and scope is not None:
+        cflags = [[n, fl + ['scope_outer']] if n == 'Scope' else [n, fl] for n, fl in cflags]
     return {'classes': classes, 'cflags': cflags, 'heap': heap, 'target': root, 'scope': scope,
-            'root': 'S' if sroot else 'T', 'spelling': sp, 'style': style,
+            'root': 'S' if sroot else 'T', 'spelling': sp, 'style': style, 'readback': rb,
             'ignore_missing': force.get('ignore', rng.random() < 0.4),
             'warmup': rng.choice([1, 2]) if rng.random() < force.get('warm_p', 0.12) and not ureg else 0,
             'api': rng.choice(['delete', 'Delete']), 'ureg': M.ureg_tables(ureg) if ureg else None,
@@ -127,38 +152,89 @@ def corpus():
 
 def run_impl(case):
     import glom
-    from glom import Delete
+    from glom import Delete, Path
     objs, dv = M.decode(case['heap'])
     enc = M.Encoder(objs, case['heap'])
     target = dv(case['target'])
-    kwargs = {}
-    if case.get('scope') is not None:
-        kwargs['scope'] = dv(case['scope'])
     out = dict(case)
+    for k in ('scope', 'ureg', 'ureg_src', 'warmup', 'readback'):      # (cases stored before these fields existed)
+        out.setdefault(k, None)
+    rb = case.get('readback')
+    kwargs = {}
+    frame_obj = caller = caller_before = None
+    if case.get('scope') is not None:
+        frame_obj = dv(case['scope'])
+        if rb:
+            # chain mode: the Scope cell stands for the scope FRAME a later step sees; the mapping handed
+            # to glom is a dict of its own (as in C11)
+            caller = dict(frame_obj)
+            caller_before = list(caller.items())
+            kwargs['scope'] = caller
+        else:
+            kwargs['scope'] = frame_obj
     default_map = glom.core._DEFAULT_SCOPE.maps[0]
     default_keys = set(default_map)
     G = M.Runner(case.get('ureg_src'))
+    peek = None
+    if rb:
+        M.Peek.baseline()
+        peek = M.Peek(own=(caller or {}))
+    read = None
+    read_val = None
     try:
         path = M.build_path(case, dv)
-        if case.get('api') == 'delete' and not kwargs and not case.get('warmup') and not G.ureg:
+        if case.get('api') == 'delete' and not kwargs and not case.get('warmup') and not G.ureg and not rb:
             res = glom.delete(target, path, ignore_missing=case['ignore_missing'])
         else:
             spec = Delete(path, ignore_missing=case['ignore_missing'])
             M.warm_up(case, spec)            # the same spec object, used on other targets before
-            res = G.glom(target, spec, **kwargs)
+            if rb:
+                rpath = M.build_path({'spelling': rb['spelling'], 'root': case.get('root'),
+                                      'style': case.get('style')}, dv)
+                if isinstance(rpath, str):
+                    rpath = Path.from_text(rpath)
+                read_val = G.glom(target, (spec, peek, rpath), **kwargs)
+                res = peek.got
+            else:
+                res = G.glom(target, spec, **kwargs)
     except Exception as e:
-        r = M.observe_exc(e)
+        if peek is not None and peek.seen:
+            a = enc.ids.get(id(peek.got))
+            r = {'ok': {'r': a} if a is not None and enc.is_container(peek.got)
+                 else pyobjs.enc_val(peek.got, lambda x: None)}
+            read = M.observe_exc(e)
+        else:
+            r = M.observe_exc(e)
+            read = 'notrun' if rb else None
     else:
         a = enc.ids.get(id(res))
         r = {'ok': {'r': a} if a is not None and enc.is_container(res) else pyobjs.enc_val(res, lambda x: None)}
+        if rb:
+            read = 'pending'
     for k in set(default_map) - default_keys:
         del default_map[k]
-    out['impl'] = {'res': r, 'heap': enc.snapshot(), 'calls': 0, 'hidden': enc.hidden()}
+    frame_seen = bool(peek is not None and peek.seen and frame_obj is not None)
+    if frame_seen:
+        frame_obj.clear()
+        for k, x in peek.vars:
+            frame_obj[k] = x
+    heap = enc.snapshot()
+    if read == 'pending':
+        nstars = sum(1 for op, _ in M.steps_of_spelling(rb['spelling']) if op in ('x', 'X'))
+        read = {'ok': M.enc_nest(read_val, nstars, enc)}
+    scope_kept = True
+    if caller is not None:
+        now = list(caller.items())
+        scope_kept = (len(now) == len(caller_before) and
+                      all(k1 is k0 or (type(k1) is type(k0) and k1 == k0) for (k0, _), (k1, _) in zip(caller_before, now))
+                      and all(x1 is x0 for (_, x0), (_, x1) in zip(caller_before, now)))
+    out['impl'] = {'res': r, 'heap': heap, 'calls': 0, 'hidden': enc.hidden(), 'read': read,
+                   'frame_seen': frame_seen, 'scope_kept': scope_kept}
     return out
 
 
 def key(case):
-    return {k: case.get(k) for k in ('heap', 'target', 'scope', 'root', 'spelling', 'style', 'ignore_missing', 'warmup', 'ureg_src')}
+    return {k: case.get(k) for k in ('heap', 'target', 'scope', 'root', 'spelling', 'style', 'ignore_missing', 'warmup', 'ureg_src', 'readback')}
 
 
 def nontrivial(case, verdict):
@@ -172,6 +248,10 @@ def shrink(case):
     base = {k: v for k, v in case.items() if not k.startswith('impl')}
     if case.get('scope') is not None and case.get('root') != 'S':
         c = dict(base); c['scope'] = None
+        yield c
+    if case.get('readback'):
+        c = dict(base); c['readback'] = None
+        c['cflags'] = [[n, [f for f in fl if f != 'scope_outer']] for n, fl in case['cflags']]
         yield c
     ur = case.get('ureg_src')
     if ur:
